@@ -331,7 +331,25 @@ def _check_main(run):
 
 
 
+def vocabulary_obligation(run):
+    """the windows range over the terminals of the GENERATED tables; the statement quantifies over the full token vocabulary of the
+    language.  A terminal that leaves the tables turns its lexeme into lexical garbage (InvalidToken, no recovery, no tree):
+    the table's terminal list must cover the vocabulary"""
+    import replay
+    T = _T
+    title = 'the window vocabulary (terminals of the generated tables) covers all %d token kinds of the language (punctuation incl. the lone sign, keywords, literals, reserved words)' % len(tables.LEX)
+    missing = sorted(t for t in tables.LEX if t not in T.terms)
+    if not missing:
+        run.holds(title, 'P', queries=len(tables.LEX), bound='%d terminals' % len(T.terms)); return
+    files = {'v%02d.aidl' % k: 'package x; interface I { void a(); int b %s c; void d(); }' % tables.LEX[t] for k, t in enumerate(missing)}
+    r = replay.project(files)
+    lost = [f for f, fr in sorted(r.get('files', {}).items()) if fr['parse']['ast'] is None or [m.get('name') for m in fr['parse']['ast']['members']] != ['a', 'd']]
+    run.violated(title, 'P', 'vocabulary:' + missing[0], {'missing_terminals': missing, 'native': {f: files[f] for f in lost[:2]}}, bool(lost),
+                 detail='terminal %s is not in the generated tables: a member containing `%s` is no longer recovered from' % (missing[0], tables.LEX[missing[0]]))
+
+
 def check(run):
     _check_main(run)
+    vocabulary_obligation(run)
     import mirror
     mirror.silent_recovery_obligation(run)
